@@ -4,7 +4,7 @@
    accepted only if it carries a (key, content, signature) triple that the verification equation
    accepts. Unforgeability of ECDSA/Ed25519 is the named residual assumption (not a theorem). *)
 Require Import Enr.Bytes Enr.Consts Enr.Rlp Enr.SortedMap Enr.Keccak Enr.Record.
-Require Import EnrProofs.Thm_Decode.
+Require Import EnrProofs.Thm_Decode EnrProofs.Thm_Forgery.
 Open Scope N_scope.
 
 (* accepted => verified by the key carried in the same record, id = v4 *)
@@ -51,3 +51,24 @@ Print Assumptions wrong_length_sig_rejected_secp.
 Theorem wrong_length_sig_rejected_ed : forall (c : crypto) pk m sg, lenN sg <> 64 -> verify_ed c pk m sg = false.
 Proof. exact Thm_Decode.wrong_length_sig_rejected_ed. Qed.
 Print Assumptions wrong_length_sig_rejected_ed.
+
+(* "every alteration is rejected", made precise: two different accepted inputs carry different
+   (seq, pairs, signature) triples ... *)
+Theorem accepted_inputs_differ_in_triple : forall (c : crypto) kt b1 b2 r1 r2 rest,
+  bytes_ok b1 -> bytes_ok b2 ->
+  decode c kt b1 = Ok (r1, rest) -> decode c kt b2 = Ok (r2, rest) ->
+  b1 <> b2 -> triple r1 <> triple r2.
+Proof. exact Thm_Forgery.accepted_inputs_differ_in_triple. Qed.
+Print Assumptions accepted_inputs_differ_in_triple.
+
+(* ... and an altered copy of a signed record is accepted only if it brings its own verifying
+   (key, content, signature), with a different signed message or a different signature: a forgery, or a
+   re-signing by the holder of the key the altered pairs carry *)
+Theorem alteration_accepted_only_as_forgery : forall (c : crypto) kt b1 b2 r1 r2 rest,
+  bytes_ok b1 -> bytes_ok b2 ->
+  decode c kt b1 = Ok (r1, rest) -> decode c kt b2 = Ok (r2, rest) -> b1 <> b2 ->
+  exists pk2, enr_to_public c kt (content r2) = Ok pk2 /\
+              verify_v4 c pk2 (signed_payload r2) (sig r2) = true /\
+              (signed_payload r2 <> signed_payload r1 \/ sig r2 <> sig r1).
+Proof. exact Thm_Forgery.alteration_accepted_only_as_forgery. Qed.
+Print Assumptions alteration_accepted_only_as_forgery.
